@@ -491,26 +491,60 @@ def guard(name):
     return deco
 
 
-def _dominating_orders(f, site_bb):
+def _cmp_fact(d, arm):
+    """the `small <= big` pair established when comparison rvalue d evaluates to `arm`"""
+    l, r = d[2], d[3]
+    holds = d[1] if arm == "true" else {"Gt": "Le", "Le": "Gt", "Lt": "Ge", "Ge": "Lt"}[d[1]]
+    return (l, r) if holds in ("Le", "Lt") else (r, l)
+
+
+def _arm_facts(f, bi, si, arm, depth):
+    """order facts known when the bool switch at bi takes `arm`: the comparison itself, or — when the switch is on a bool VARIABLE
+    (`let ok = a <= b && b <= n; if ok {…}`, short-circuit evaluation assigns it in several blocks) — what is common to every assignment
+    that can give the variable that value"""
+    d = si.get("bool_def")
+    if d and d[0] == "bin" and d[1] in ("Gt", "Lt", "Ge", "Le"):
+        return [_cmp_fact(d, arm) + (bi,)]
+    if depth > 3 or si["op"][0] == "k":
+        return []
+    base = _src_local(f, si["op"])
+    if not base:
+        return []
+    per_def = []
+    for df in f.defs.get(base[1], []):
+        if df[0] != "assign" or df[1] not in f.live_blocks or df[4]:
+            return []
+        rv = df[3]
+        here = _dominating_orders(f, df[1], depth + 1)
+        if rv[0] == "use" and rv[1][0] == "k" and rv[1][1].get("ty") == "bool":
+            if (rv[1][1].get("v") == "true") != (arm == "true"):
+                continue          # this assignment cannot produce the value of this arm
+            per_def.append(here)
+        elif rv[0] == "bin" and rv[1] in ("Gt", "Lt", "Ge", "Le"):
+            per_def.append(here + [_cmp_fact(rv, arm) + (df[1],)])
+        else:
+            per_def.append(here)
+    if not per_def:
+        return []
+    key = lambda t: (_src_local(f, t[0]), _src_local(f, t[1]))  # noqa: E731
+    common = set(map(key, per_def[0]))
+    for p_ in per_def[1:]:
+        common &= set(map(key, p_))
+    return [t for t in per_def[0] if key(t) in common and None not in key(t)]
+
+
+def _dominating_orders(f, site_bb, depth=0):
     """every `small <= big` fact (as operand pairs) established by a comparison whose arm dominates site_bb"""
     out = []
     for bi in sorted(f.live_blocks):
         si = f.switch_info(bi)
         if not si or "true" not in si["arms"] or si["op"][0] == "k":
             continue
-        d = si.get("bool_def")
-        if not d or d[0] != "bin" or d[1] not in ("Gt", "Lt", "Ge", "Le"):
-            continue
         for arm in ("true", "false"):
             tgt = si["arms"][arm]
-            if not ([p for p in f.pred[tgt] if p in f.live_blocks] == [bi] and f.dominates(tgt, site_bb)):
+            if not ([p for p in f.pred[tgt] if p in f.live_blocks] == [bi] and (f.dominates(tgt, site_bb) or tgt == site_bb)):
                 continue
-            l, r = d[2], d[3]
-            holds = d[1] if arm == "true" else {"Gt": "Le", "Le": "Gt", "Lt": "Ge", "Ge": "Lt"}[d[1]]
-            if holds in ("Le", "Lt"):
-                out.append((l, r, bi))
-            else:
-                out.append((r, l, bi))
+            out += _arm_facts(f, bi, si, arm, depth)
     return out
 
 
